@@ -682,7 +682,8 @@ ElemNumber::getPreviousNode(
 
             if(0 == next)
             {
-                next = pos->getParentNode();
+                // (the parent of an attribute node is its element)
+                next = DOMServices::getParentOfNode(*pos);
             }
             else
             {
